@@ -35,6 +35,7 @@ type Opt struct {
 	IniName        string
 	NoIni          bool
 	RawTag         string // if non-empty, used verbatim instead of the rendered tag (C19)
+	Prog           bool   // required / choices / hidden / default-mask are set on the flags.Option after scanning, not by tags
 
 	Grp *Grp
 	Cmd *Cmd
@@ -54,7 +55,18 @@ type PlainField struct {
 	Init  string // canonical rendering of the canary value
 }
 
+// NoFlagField: a struct-typed field tagged no-flag whose inner fields carry option tags; none of them may
+// become an option, and the inner values must never change.
+type NoFlagField struct {
+	Field string
+	Long  string
+	Short rune
+	idx   int
+	Val   reflect.Value
+}
+
 type Grp struct {
+	NoFlag     []*NoFlagField
 	Field      string
 	Desc       string
 	LongDesc   string
@@ -206,7 +218,7 @@ func (o *Opt) Tag() string {
 	if o.EnvDelim != "" {
 		tagKV(&sb, "env-delim", o.EnvDelim)
 	}
-	if o.Required {
+	if o.Required && !o.Prog {
 		tagKV(&sb, "required", "true")
 	}
 	if o.Optional {
@@ -216,7 +228,9 @@ func (o *Opt) Tag() string {
 		tagKV(&sb, "optional-value", v)
 	}
 	for _, c := range o.Choices {
-		tagKV(&sb, "choice", c)
+		if !o.Prog {
+			tagKV(&sb, "choice", c)
+		}
 	}
 	if o.Base != 0 {
 		tagKV(&sb, "base", strconv.Itoa(o.Base))
@@ -224,13 +238,13 @@ func (o *Opt) Tag() string {
 	if o.NoUnquote {
 		tagKV(&sb, "unquote", "false")
 	}
-	if o.Hidden {
+	if o.Hidden && !o.Prog {
 		tagKV(&sb, "hidden", "true")
 	}
 	if o.ValueName != "" {
 		tagKV(&sb, "value-name", o.ValueName)
 	}
-	if o.DefaultMask != "" {
+	if o.DefaultMask != "" && !o.Prog {
 		tagKV(&sb, "default-mask", o.DefaultMask)
 	}
 	if o.IniName != "" {
@@ -322,6 +336,13 @@ func (d *Decl) structType(g *Grp, cmd *Cmd) reflect.Type {
 	for _, o := range g.Opts {
 		o.idx = add(o.Field, o.T.GoType(), o.Tag())
 	}
+	for _, nf := range g.NoFlag {
+		inner := reflect.StructOf([]reflect.StructField{
+			{Name: "Secret", Type: tString, Tag: reflect.StructTag(`long:"` + nf.Long + `" description:"must not be an option"`)},
+			{Name: "Level", Type: reflect.TypeOf(0), Tag: reflect.StructTag(`long:"` + nf.Long + `-level" default:"7"`)},
+		})
+		nf.idx = add(nf.Field, inner, `no-flag:"true"`)
+	}
 	for _, sg := range g.Subs {
 		if sg.ByAddGroup {
 			continue
@@ -393,6 +414,13 @@ func (d *Decl) instantiate(g *Grp, cmd *Cmd, sv reflect.Value, log *CallLog, lat
 		if !late {
 			pf.Val.Set(plainCanary(pf, i+1))
 			pf.Init = Canon(pf.Val)
+		}
+	}
+	for _, nf := range g.NoFlag {
+		nf.Val = sv.Field(nf.idx)
+		if !late {
+			nf.Val.Field(0).SetString("nf-canary")
+			nf.Val.Field(1).SetInt(41)
 		}
 	}
 	for _, o := range g.Opts {
@@ -539,7 +567,35 @@ func (d *Decl) Build() *Built {
 	d.attach(b, root, log)
 	// resolve pointer groups that go-flags allocated, and flags.Group handles
 	d.instantiate(root.G, root, pv.Elem(), log, true)
+	d.applyProgAttrs(b)
 	return b
+}
+
+// applyProgAttrs sets required / choices / hidden / default-mask through the exported fields of the
+// flags.Option of every option marked Prog (programmatic declaration instead of tags).
+func (d *Decl) applyProgAttrs(b *Built) {
+	for _, o := range d.Opts {
+		if !o.Prog || o.Cmd.FC == nil {
+			continue
+		}
+		var fo *flags.Option
+		// search only the declaring command's own group tree
+		grp := o.Cmd.FC.Group
+		if o.Long != "" {
+			fo = grp.FindOptionByLongName(d.FullLong(o))
+		} else if o.Short != 0 {
+			fo = grp.FindOptionByShortName(o.Short)
+		}
+		if fo == nil || fo.Field().Name != o.Field {
+			o.Prog = false // not reachable through the finders (e.g. shadowed): leave it undeclared consistently
+			o.Required, o.Choices, o.Hidden, o.DefaultMask = false, nil, false, ""
+			continue
+		}
+		fo.Required = o.Required
+		fo.Choices = append([]string(nil), o.Choices...)
+		fo.Hidden = o.Hidden
+		fo.DefaultMask = o.DefaultMask
+	}
 }
 
 func (d *Decl) attach(b *Built, c *Cmd, log *CallLog) {
@@ -622,6 +678,11 @@ func (d *Decl) Snapshot() map[string]string {
 		for pi, pf := range g.Plain {
 			if pf.Val.IsValid() {
 				m[fmt.Sprintf("plain%d.%d", gi, pi)] = Canon(pf.Val)
+			}
+		}
+		for ni, nf := range g.NoFlag {
+			if nf.Val.IsValid() {
+				m[fmt.Sprintf("noflag%d.%d", gi, ni)] = Canon(nf.Val)
 			}
 		}
 	}
